@@ -122,4 +122,90 @@ def intToken (n : Int) : Bytes := showInt n ++ [105]
 def quoteBody (s : Bytes) : Bytes :=
   s.flatMap fun c => if c = bBslash ∨ c = bQuote then [bBslash, c] else [c]
 
+
+/-! ### printers of a whole line (canonical spelling) -/
+
+def showTag (t : Tag) : Bytes := escapeTag t.key ++ bEq :: escapeTag t.val
+
+/-- `k=v,k=v,…` -/
+def showTagsTail : List Tag → Bytes
+  | [] => []
+  | [t] => showTag t
+  | t :: t' :: ts => showTag t ++ bComma :: showTagsTail (t' :: ts)
+
+def showField (f : Bytes × Bytes) : Bytes := escapeTag f.1 ++ bEq :: f.2
+
+/-- `k=tok,k=tok,…` -/
+def showFields : List (Bytes × Bytes) → Bytes
+  | [] => []
+  | [f] => showField f
+  | f :: f' :: fs => showField f ++ bComma :: showFields (f' :: fs)
+
+/-- a value token without blank, comma, quote or backslash (every integer, number and
+boolean spelling is one). -/
+def PlainTok (t : Bytes) : Prop := ∀ c ∈ t, c ≠ bSpace ∧ c ≠ bComma ∧ c ≠ bQuote ∧ c ≠ bBslash
+
+/-- a printable non-string field: key, value token, the value the parser gives the token. -/
+structure NField where
+  key : Bytes
+  tok : Bytes
+  val : FVal
+
+/-- well-formed: a non-empty key within the length limit and without a double quote (see the
+finding `stray_quote`), a plain token that parses. -/
+def NField.Ok (f : NField) : Prop :=
+  f.key ≠ [] ∧ f.key.length ≤ maxFieldNameLength ∧ (∀ c ∈ f.key, c ≠ bQuote) ∧ PlainTok f.tok ∧ parseNum f.tok = some f.val
+
+def NField.text (f : NField) : Bytes × Bytes := (f.key, f.tok)
+def NField.field (f : NField) : Field := ⟨f.key, f.val⟩
+
+def TagOk (t : Tag) : Prop :=
+  t.key ≠ [] ∧ t.val ≠ [] ∧ t.key.length ≤ maxTagNameLength ∧ t.val.length ≤ maxTagValueLength
+
+/-- a written timestamp must fit the int64 range. -/
+def tsOk : Option Nat → Prop
+  | none => True
+  | some t => (t : Int) ≤ maxInt64
+
+instance : (o : Option Nat) → Decidable (tsOk o)
+  | none => isTrue trivial
+  | some t => inferInstanceAs (Decidable ((t : Int) ≤ maxInt64))
+
+instance (t : Bytes) : Decidable (PlainTok t) := by unfold PlainTok; infer_instance
+instance (t : Tag) : Decidable (TagOk t) := by unfold TagOk; infer_instance
+instance (f : NField) : Decidable f.Ok := by unfold NField.Ok; infer_instance
+
+/-- a point with non-string fields. -/
+structure NPoint where
+  name : Bytes
+  tags : List Tag
+  fields : List NField
+  ts : Option Nat
+
+def NPoint.Ok (p : NPoint) : Prop :=
+  p.name ≠ [] ∧ p.name.length ≤ maxMeasurementLength ∧ p.name.head? ≠ some bTab ∧ p.name.head? ≠ some 0 ∧
+  (∀ t ∈ p.tags, TagOk t) ∧ p.fields ≠ [] ∧ (∀ f ∈ p.fields, f.Ok) ∧
+  tsOk p.ts
+
+/-- ` <timestamp>` or nothing. -/
+def showTs : Option Nat → Bytes
+  | none => []
+  | some t => bSpace :: showNat t
+
+/-- the timestamp a parsed row carries (`NoTimestamp` when the line has none). -/
+def tsOf : Option Nat → Int
+  | none => noTimestamp
+  | some t => (t : Int)
+
+instance (p : NPoint) : Decidable p.Ok := by unfold NPoint.Ok; infer_instance
+
+/-- the canonical line of a point: every byte of the escape set escaped. -/
+def showLine (p : NPoint) : Bytes :=
+  escapeTag p.name ++ (if p.tags = [] then [] else bComma :: showTagsTail p.tags) ++
+    bSpace :: (showFields (p.fields.map NField.text) ++ showTs p.ts)
+
+/-- what the line of a well-formed point must parse to. -/
+def NPoint.row (p : NPoint) : Row :=
+  ⟨p.name, sortTags p.tags, p.fields.map NField.field, tsOf p.ts⟩
+
 end OG.C06
